@@ -4,7 +4,7 @@ from __future__ import annotations
 from ..absint import Builtin, Cls, Const, Dct, Fn, Interp, Lst, Obj, Term, Tup, explore, is_call, mentions, run_method, show, subterms
 from ..model import ClassInfo, Undecided, UNKNOWN
 from .common import abstract_construct, lower_first, sym, is_sym
-from .driverworld import IE, IV, make_driver, make_vector
+from .driverworld import IE, IV, _reachable_objs, build_drivers, make_driver, make_vector
 
 EXPLANATION = (
     "C07.BRANCH: Driver.message_from_client is abstractly interpreted on an abstract driver with three vectors for getProperties with "
@@ -96,6 +96,25 @@ def _inline_getters(p):
     return pol
 
 
+_DISABLED_SRC = '''
+from indi.device import Driver, properties
+
+
+class DevA(Driver):
+    grp = properties.Group(
+        "GRP",
+        enabled={gen},
+        vectors=dict(
+            v=properties.{kind}Vector(
+                "V1",
+                enabled={ven},
+                elements=dict(a=properties.{kind}("A"), b=properties.{kind}("B", enabled=False), c=properties.{kind}("C")),
+            )
+        ),
+    )
+'''
+
+
 def rule_disabled(ctx):
     p = ctx.p
     n = 0
@@ -109,10 +128,14 @@ def rule_disabled(ctx):
                 for gen in (True, False):
                     n += 1
 
+                    src = _DISABLED_SRC.format(kind=kind, ven=ven, gen=gen)
+
                     def run(it: Interp):
-                        drv, grp, vec, els = make_vector(p, kind, enabled=ven, group_enabled=gen, elements=(("a", "A", True), ("b", "B", False), ("c", "C", True)))
-                        it.els = els
-                        return it.run_function(Fn(f, vec), [], {})
+                        drivers = build_drivers(it, p, names=(("DevA", "DEVA"),), src=src)
+                        vec = [o for o in _reachable_objs(drivers["DEVA"]) if o.label == "vec:DEVA.V1"]
+                        if len(vec) != 1:
+                            raise Undecided("constructed driver does not hold exactly one vector V1")
+                        return it.run_function(Fn(f, vec[0]), [], {})
 
                     paths = explore(p, run, {"inline": _inline_getters(p)})
                     ctx.paths_enumerated += len(paths)
@@ -132,7 +155,7 @@ def rule_disabled(ctx):
                             else:
                                 okd = isinstance(v, Term) and v.op == "call" and isinstance(v.args[0], Cls) and v.args[0].ci.name == "DelProperty"
                                 kw = dict((k, x) for k, x in v.args[2]) if okd else {}
-                                if not okd or show(kw.get("device", Const(0))) != "'DEV'" or show(kw.get("name", Const(0))) != "'V1'":
+                                if not okd or show(kw.get("device", Const(0))) != "'DEVA'" or show(kw.get("name", Const(0))) != "'V1'":
                                     ctx.violated("C07.DISABLED", inst, f"a disabled property is answered with {show(v)[:60]} instead of delProperty(device, name) for [{row}]", fi=f, text="def-when-disabled", witness=row)
                                     bad = True
                             continue
@@ -152,10 +175,10 @@ def rule_disabled(ctx):
                                     got.append(show(x.args[0].self_val))
                                 else:
                                     got.append("?")
-                        if got != ["el:V1.A", "el:V1.C"]:
+                        if got != ["el:DEVA.V1.A", "el:DEVA.V1.C"]:
                             ctx.violated("C07.DISABLED", inst, f"children are {got if items is not None else show(ch)[:40]}, expected the enabled elements A and C in order (B is disabled)", fi=f, text="children", witness=row)
                             bad = True
-                        if show(kw.get("device", Const(0))) != "'DEV'" or show(kw.get("name", Const(0))) != "'V1'" or show(kw.get("state", Const(0))) != "'Ok'":
+                        if show(kw.get("device", Const(0))) != "'DEVA'" or show(kw.get("name", Const(0))) != "'V1'" or show(kw.get("state", Const(0))) != "'Ok'":
                             ctx.violated("C07.DISABLED", inst, f"device/name/state are not the vector's own: {show(v)[:80]}", fi=f, text="identity")
                             bad = True
             if not bad:
